@@ -57,6 +57,7 @@ func genVec(rt *rapid.T) Vec {
 		idx[i] = i
 	}
 	v.Order = rapid.Permutation(idx).Draw(rt, "order")
+	v.Twice = rapid.IntRange(0, 3).Draw(rt, "potsTwice") == 0
 	if rapid.Bool().Draw(rt, "turnLevelLists") {
 		v.LevelRot = rapid.IntRange(1, n).Draw(rt, "levelRot")
 	}
